@@ -44,6 +44,8 @@ type flowParams struct {
 	PointOnly    []string            `json:"point_only"`     // preemptive part: sweep only points of these files
 	LateOpen     []string            `json:"late_open"`      // destinations whose Open gate sorts last (stays pending by default)
 	LateCommit   bool                `json:"late_commit"`    // store commits stay in flight until nothing else can run (exploration order)
+	AckScript    []string            `json:"ack_script"`     // forced answer of the k-th ack request of every destination (input script, not a choice)
+	IdleBatches  []int               `json:"idle_batches"`   // source batches whose first read waits until no timer is left (quiet period)
 	LatePut      bool                `json:"late_put"`       // non-transactional store writes (pipeline status) stay in flight until nothing else can run
 	SiteWide     bool                `json:"site_wide"`      // preemptive part: hold every goroutine reaching the armed site
 	LateAckRecv  bool                `json:"late_ack_recv"`  // source plugins are slow to receive acks (exploration order)
@@ -95,6 +97,12 @@ func (p flowParams) name() string {
 	}
 	if p.LatePut {
 		n += "/lateput"
+	}
+	if len(p.AckScript) > 0 {
+		n += "/ackscript=" + strings.Join(p.AckScript, ",")
+	}
+	if len(p.IdleBatches) > 0 {
+		n += fmt.Sprintf("/idle=%v", p.IdleBatches)
 	}
 	if p.SiteWide {
 		n += "/sitewide"
@@ -152,7 +160,7 @@ func (p flowParams) topology() stack.Topology {
 			}
 			batches = append(batches, b)
 		}
-		ss := fakes.SourceScript{Name: fmt.Sprintf("s%d", s), Batches: batches, ReadMenu: p.ReadMenu, NoMatch: p.NoMatch, LateAckRecv: p.LateAckRecv}
+		ss := fakes.SourceScript{Name: fmt.Sprintf("s%d", s), Batches: batches, ReadMenu: p.ReadMenu, NoMatch: p.NoMatch, LateAckRecv: p.LateAckRecv, IdleBatches: p.IdleBatches}
 		switch p.SrcPositions {
 		case "dup":
 			ss.PositionOf = func(i int) opencdc.Position {
@@ -176,6 +184,15 @@ func (p flowParams) topology() stack.Topology {
 		for _, l := range p.LateOpen {
 			if l == ds.Name {
 				ds.LateOpen = true
+			}
+		}
+		if script := p.AckScript; len(script) > 0 {
+			ds.ScriptAcrossRuns = true
+			ds.MenuFor = func(k, _ int) []string {
+				if k < len(script) {
+					return []string{script[k]}
+				}
+				return []string{"ok"}
 			}
 		}
 		if p.Reject != nil {
